@@ -198,6 +198,7 @@ def program(rng, **kw):
 def _program(rng, *, n_state=(1, 5), n_control=(0, 3), n_calib=(0, 3), n_sensor=(0, 3),
             n_reading=(1, 4), depth=3, cpp_safe=True, allow_text=True, n_shared=(1, 3),
             integrator_bias=0.5, dt_names=("dt",), sensor_calib=True, containers=True, wraps=False,
+            assumptions=True, physical=True,
             calib_containers=("set", "set", "frozenset", "list", "tuple")):
     """Random model + sensor definition."""
     P = pools()
@@ -235,6 +236,7 @@ def _program(rng, *, n_state=(1, 5), n_control=(0, 3), n_calib=(0, 3), n_sensor=
     sensors, sensor_noises, reading_keys = {}, {}, {}
     nsens = rng.randint(*n_sensor)
     snames = _pick_names(rng, P["sensor"], nsens, set())
+    prev_rnames = []
     for sn in snames:
         m = rng.randint(*n_reading)
         # a sensor keyed by Symbol objects can only have one reading (sympy
@@ -242,8 +244,15 @@ def _program(rng, *, n_state=(1, 5), n_control=(0, 3), n_calib=(0, 3), n_sensor=
         kind = "sym" if (m == 1 and rng.random() < 0.4) else "str"
         if kind == "sym":
             rnames = [rng.choice(state)]
+        elif prev_rnames and rng.random() < 0.35:
+            # another sensor with (some of) the same reading names
+            base = list(prev_rnames)
+            rng.shuffle(base)
+            rnames = base[:m] + _pick_names(rng, P["reading"] + state, max(0, m - len(base)), set(base))
         else:
             rnames = _pick_names(rng, P["reading"] + state, m, set())
+        if kind != "sym":
+            prev_rnames = list(rnames)
         sshared = []
         if m >= 2:
             for _try in range(20):
@@ -264,8 +273,13 @@ def _program(rng, *, n_state=(1, 5), n_control=(0, 3), n_calib=(0, 3), n_sensor=
                 body = ["add", body, sshared[0]]
             rd[rn] = body
         sensors[sn] = _shuffled_dict(rng, rd)
-        sensor_noises[sn] = _shuffled_dict(
-            rng, {rn: round(rng.uniform(0.05, 4.0), 3) for rn in rnames})
+        if rng.random() < 0.15:
+            # well characterised and poor channels on one sensor: variances many orders of magnitude apart
+            sensor_noises[sn] = _shuffled_dict(
+                rng, {rn: float(f"{10.0 ** rng.uniform(-9, 4):.3e}") for rn in rnames})
+        else:
+            sensor_noises[sn] = _shuffled_dict(
+                rng, {rn: round(rng.uniform(0.05, 4.0), 3) for rn in rnames})
         reading_keys[sn] = kind
 
     cont_choices = ["set", "list", "tuple", "frozenset"] if containers else ["set"]
@@ -284,12 +298,29 @@ def _program(rng, *, n_state=(1, 5), n_control=(0, 3), n_calib=(0, 3), n_sensor=
         "calibration_map": _shuffled_dict(
             rng, {k: round(rng.choice([-1, 1]) * rng.uniform(0.3, 3.0), 3) for k in calib}),
         "process_noise": _shuffled_dict(
-            rng, {c: round(rng.uniform(0.05, 4.0), 3) for c in control}),
+            rng, {c: (round(rng.uniform(0.05, 4.0), 3) if rng.random() < 0.8
+                      else float(f"{10.0 ** rng.uniform(-10, -2):.3e}")) for c in control}),
         "sensors": _shuffled_dict(rng, sensors),
         "sensor_noises": _shuffled_dict(rng, sensor_noises),
         "reading_keys": reading_keys,
         "n_shared": len(shared),
     }
+    if assumptions and rng.random() < 0.2:
+        # sympy symbols that carry assumptions (Symbol("x", real=True)) - valid and common practice;
+        # string-typed expressions would create plain symbols, so they are switched off here
+        defn["symbol_assumptions"] = rng.choice(["real", "real_finite"])
+        defn["model_as_text"] = []
+    if physical and rng.random() < 0.15 and state:
+        # a term with a tiny literal and a huge calibration value whose product matters (G*M, k_B*T, ...)
+        tiny = rng.choice([6.674e-11, 1.380649e-23, 8.854e-12, 3.0e-9, 1e-15])
+        big = float(f"{rng.uniform(1, 9) / tiny * 10 ** rng.randint(-1, 2):.4e}")
+        kname = _pick_names(rng, P["sym"], 1, taken | set(state + control + calib))[0]
+        defn["calibration"] = calib + [kname]
+        defn["calibration_map"] = dict(defn["calibration_map"], **{kname: big})
+        tgt = rng.choice(state)
+        defn["model"][tgt] = ["add", defn["model"][tgt],
+                              ["mul", E.F(tiny), ["mul", E.S(kname), gen_leaf(rng, state, 0.0)]]]
+        defn["physical_constants"] = {"tiny": tiny, "calibration": kname, "value": big}
     return defn
 
 
@@ -435,6 +466,11 @@ def max_exp_argument(defn, env):
                 worst = max(worst, v * v)
             except (OverflowError, ValueError):
                 worst = float("inf")
+        if a[0] == "gate":
+            try:
+                worst = max(worst, abs(float(E.ev(a[1], env)[0])))
+            except (OverflowError, ValueError):
+                worst = float("inf")
         for k in a[1:]:
             if isinstance(k, list):
                 walk(k)
@@ -498,6 +534,30 @@ def spd(rng, n, kind=None):
             P *= 10.0 ** g.integers(-3, 3)
     P = (P + P.T) / 2.0
     return P
+
+
+def typed_cov(rng, P, p=0.25):
+    """Sometimes the caller's covariance is not a float64 array: np.diag([4, 1, 9]) is int64, sensor
+    pipelines carry float32.  -> (matrix as float64 values, dtype or None); the values are exactly
+    representable in the dtype."""
+    import numpy as np
+
+    P = np.array(P, dtype=float)
+    n = P.shape[0]
+    if n == 0 or rng.random() >= p:
+        return P, None
+    if rng.random() < 0.5:
+        g = np.random.default_rng(rng.getrandbits(63))
+        if rng.random() < 0.5:
+            M = np.diag(g.integers(1, 10, size=n)).astype(float)
+        else:
+            A = g.integers(-2, 3, size=(n, n)).astype(float)
+            M = A @ A.T + np.eye(n)
+        return M, "int64"
+    M = P.astype("float32").astype(float)
+    M = (M + M.T) / 2.0
+    M = M.astype("float32").astype(float)
+    return M, "float32"
 
 
 def nontrivial_program(defn) -> bool:
